@@ -120,11 +120,15 @@ def _run_pair(p):
     i, j = p
     menu = _CHECK._menu
     a = _safe_render(menu[i][0], menu[i][2])
-    _run_one(menu[i])  # A: result ignored (A alone is covered by its own space)
+    ra = _run_one(menu[i])  # A runs first in a pristine process: library state in its initial condition
     r = _run_one(menu[j])  # B, in the state A left behind
     r = dict(r)
     r["viol"] = [dict(v, canon=f"after[{a}]|{v['canon']}", kind="after-another-query:" + v["kind"])
                  for v in r.get("viol", ())]
+    if i == j:
+        # report A's own violations once (on the diagonal): they are what a fresh process sees first
+        r["viol"] = [dict(v, canon=f"first-in-process|{v['canon']}", kind="first-in-process:" + v["kind"])
+                     for v in ra.get("viol", ())] + r["viol"]
     r["nt"] = [f"after[{a}]|{c}" for c in r.get("nt", ())][:3]
     r["sample_text"] = f"A = {a} ; then B = {_safe_render(menu[j][0], menu[j][2])}"
     r.pop("custom", None)
